@@ -195,6 +195,8 @@ pub struct Inner {
     /// when false the edge monitors do not raise C01..C04 violations (E4 uses its own oracle)
     pub monitors_on: bool,
     pub notes: Vec<String>,
+    /// owner (output subscription) of every env step, index = step number
+    pub step_owners: Vec<i32>,
 }
 
 pub struct World {
@@ -232,6 +234,7 @@ impl World {
                 err_labels: vec![],
                 monitors_on: true,
                 notes: vec![],
+                step_owners: vec![-1],
             }),
         })
     }
@@ -292,6 +295,7 @@ impl World {
         let mut g = self.lock();
         g.step += 1;
         g.owner = owner;
+        g.step_owners.push(owner);
         g.step
     }
 
